@@ -37,6 +37,21 @@ func c20Test(c *Ctx) *RuleResult {
 		}
 		return at, flip
 	}
+	// names of the tested lock parameter, of the loop cursor (X = X.next) and of the receiver
+	lTest := u.Fn.Type().(*types.Signature).Params().At(0).Name()
+	recvName := u.Decl.Recv.List[0].Names[0].Name
+	leSearch := ""
+	ast.Inspect(loop.Body, func(n ast.Node) bool {
+		if as, ok := n.(*ast.AssignStmt); ok && as.Tok == token.ASSIGN && len(as.Lhs) == 1 && len(as.Rhs) == 1 {
+			if sel, ok := ast.Unparen(as.Rhs[0]).(*ast.SelectorExpr); ok && sel.Sel.Name == "next" && exprStr(sel.X) == exprStr(as.Lhs[0]) {
+				leSearch = exprStr(as.Lhs[0])
+			}
+		}
+		return true
+	})
+	if leSearch == "" {
+		panic(anchorError("ByteRangeLockSet.Test: loop cursor advanced with X = X.next"))
+	}
 	has := func(s string, subs ...string) bool {
 		for _, x := range subs {
 			if !strings.Contains(s, x) {
@@ -48,24 +63,24 @@ func c20Test(c *Ctx) *RuleResult {
 	// orientation: first operand = the list entry's field
 	pair := func(entrySuffix, otherContains string) func(a, b string) (bool, bool) {
 		return func(a, b string) (bool, bool) {
-			if strings.HasSuffix(a, entrySuffix) && has(a, "leSearch") && has(b, otherContains) && !has(b, "leSearch") {
+			if strings.HasSuffix(a, entrySuffix) && has(a, leSearch) && has(b, otherContains) && !has(b, leSearch) {
 				return true, false
 			}
-			if strings.HasSuffix(b, entrySuffix) && has(b, "leSearch") && has(a, otherContains) && !has(a, "leSearch") {
+			if strings.HasSuffix(b, entrySuffix) && has(b, leSearch) && has(a, otherContains) && !has(a, leSearch) {
 				return true, true
 			}
 			return false, false
 		}
 	}
 	head, _ := find(func(a, b string) (bool, bool) {
-		return (a == "leSearch" && has(b, "ls.list")) || (b == "leSearch" && has(a, "ls.list")), false
+		return (a == leSearch && has(b, recvName+".list")) || (b == leSearch && has(a, recvName+".list")), false
 	}, "entry == &ls.list")
-	startEnd, seF := find(pair(".Start", "lTest.End"), "entry.Start ? test.End")
-	owner, _ := find(pair(".Owner", "lTest.Owner"), "entry.Owner ? test.Owner")
-	endStart, esF := find(pair(".End", "lTest.Start"), "entry.End ? test.Start")
+	startEnd, seF := find(pair(".Start", lTest+".End"), "entry.Start ? test.End")
+	owner, _ := find(pair(".Owner", lTest+".Owner"), "entry.Owner ? test.Owner")
+	endStart, esF := find(pair(".End", lTest+".Start"), "entry.End ? test.Start")
 	etype, _ := find(pair(".Type", "ByteRangeLockTypeLockedExclusive"), "entry.Type == Exclusive")
 	ttype, _ := find(func(a, b string) (bool, bool) {
-		return (has(a, "lTest.Type") && has(b, "Exclusive")) || (has(b, "lTest.Type") && has(a, "Exclusive")), false
+		return (has(a, lTest+".Type") && has(b, "Exclusive")) || (has(b, lTest+".Type") && has(a, "Exclusive")), false
 	}, "test.Type == Exclusive")
 	if len(d.Atoms) != 6 {
 		r.bad(c.Prop, u.Name()+"|atoms", posOf(p, loop), fmt.Sprintf("the conflict test consults %d conditions (%v) instead of the six of the specification", len(d.Atoms), d.describe()))
@@ -91,7 +106,7 @@ func c20Test(c *Ctx) *RuleResult {
 			want = "lSearch"
 		}
 		got := row.Result
-		if got == "&leSearch.lock" {
+		if got == "&"+leSearch+".lock" {
 			got = "lSearch"
 		}
 		construct := fmt.Sprintf("%s|head=%v,start?end=%+d,sameOwner=%v,end?start=%+d,entryExcl=%v,testExcl=%v", u.Name(), atHead, se, sameOwner, es, eExcl, tExcl)
@@ -466,6 +481,49 @@ func c20Count(c *Ctx) *RuleResult {
 							return true
 						})
 					}
+				}
+			}
+			if !used {
+				// d, _ := call; helper(d) where helper does X.lockCount += <that parameter>
+				for _, anc := range pathTo(u.Decl.Body, call) {
+					as, ok := anc.(*ast.AssignStmt)
+					if !ok || len(as.Rhs) != 1 || ast.Unparen(as.Rhs[0]) != ast.Expr(call) {
+						continue
+					}
+					dv := exprStr(as.Lhs[0])
+					ast.Inspect(u.Decl.Body, func(m ast.Node) bool {
+						hc, ok := m.(*ast.CallExpr)
+						if !ok {
+							return true
+						}
+						hfn := calleeOf(info, hc)
+						if hfn == nil || p.Decl(hfn) == nil {
+							return true
+						}
+						for ai, a := range hc.Args {
+							if exprStr(a) != dv {
+								continue
+							}
+							hd := p.Decl(hfn)
+							pi := 0
+							pname := ""
+							for _, f := range hd.Type.Params.List {
+								for _, nme := range f.Names {
+									if pi == ai {
+										pname = nme.Name
+									}
+									pi++
+								}
+							}
+							ast.Inspect(hd.Body, func(k ast.Node) bool {
+								if o, ok := k.(*ast.AssignStmt); ok && o.Tok == token.ADD_ASSIGN && strings.HasSuffix(exprStr(o.Lhs[0]), ".lockCount") && exprStr(o.Rhs[0]) == pname && pname != "" {
+									used = true
+								}
+								return true
+							})
+						}
+						return true
+					})
 				}
 			}
 			if used {
